@@ -122,8 +122,7 @@ func TestC08RegressGdefHeaderOffset(t *testing.T) {
 			MarkAttachClass: altClasses(20000, 3, 1),
 			MarkGlyphSets:   []coverage.Set{{1: true, 2: true}},
 		},
-		overflow: true,
-		desc:     "two alternating class tables of 20000 glyphs (40 KiB each) and one mark glyph set",
+		desc: "two alternating class tables of 20000 glyphs (40 KiB each) and one mark glyph set",
 	}
 	labels, f := checkGdef(c)
 	regressTable(t, "gdef-header-offset", labels, f)
